@@ -78,6 +78,20 @@ type termEnv struct {
 	depth int
 	// rename maps path prefixes to canonical names (e.g. "e.state" -> "S")
 	rename [][2]string
+	// opaque callees are never inlined
+	opaque map[*ssa.Function]bool
+}
+
+// staticTerm is the path-independent normal form of v (φ-nodes stay symbols, loads name
+// their location): used for formula templates.
+func staticTerm(c *Ctx, v ssa.Value, opaque ...*ssa.Function) string {
+	env := &termEnv{c: c, s: newTState(), opaque: map[*ssa.Function]bool{}}
+	for _, f := range opaque {
+		if f != nil {
+			env.opaque[f] = true
+		}
+	}
+	return normTerm(env.T(v))
 }
 
 func (e *termEnv) canonPath(p string) string {
@@ -494,7 +508,7 @@ func (e *termEnv) callTerm(x *ssa.Call) string {
 	for _, a := range x.Call.Args {
 		as = append(as, e.T(a))
 	}
-	if e.c.InModule(callee) && e.depth < 4 {
+	if e.c.InModule(callee) && e.depth < 4 && !e.opaque[callee] {
 		if t, ok := e.inline(callee, x.Call.Args, as); ok {
 			return t
 		}
@@ -539,7 +553,7 @@ func (e *termEnv) inline(callee *ssa.Function, args []ssa.Value, argTerms []stri
 	if ret == nil || len(ret.Results) == 0 {
 		return "", false
 	}
-	sub := &termEnv{c: e.c, s: e.s, bind: map[*ssa.Parameter]string{}, depth: e.depth + 1, rename: e.rename}
+	sub := &termEnv{c: e.c, s: e.s, bind: map[*ssa.Parameter]string{}, depth: e.depth + 1, rename: e.rename, opaque: e.opaque}
 	for i, p := range callee.Params {
 		sub.bind[p] = argTerms[i]
 	}
